@@ -7,7 +7,7 @@ use crate::term::*;
 pub const LIMIT: i64 = 12;
 pub const PRELUDE: &str = "proc pa2 {a b} {return $a$b}; set nonint abc; set arr(1) 1";
 
-pub const FAULTS: [&str; 24] = [
+pub const FAULTS: [&str; 28] = [
     "set q \"unterminated",
     "rec [unclosed",
     "rec $arr(",
@@ -32,6 +32,10 @@ pub const FAULTS: [&str; 24] = [
     "rec fine",
     "proc rw {} {rw}; rw",
     "proc pb {a a(1)} {return $a}; pb 1 2",
+    "proc po {{a 1} b} {return $a$b}; po x",
+    "proc pe {args {b 1} a} {return $a}; pe 1 2",
+    "proc po3 {a {b 2} c} {return $a}; po3 1 2",
+    "proc pd {a {b 2}} {return $a}; pd",
 ];
 
 pub fn wrap(rng: &mut Rng, body: &str, k: &mut usize) -> String {
@@ -101,7 +105,7 @@ pub fn gen(tier: &str, seed: u64) -> Gen {
         let refs: Vec<&str> = scripts.iter().map(|s| s.as_str()).collect();
         cases.push(case(LIMIT, &refs, &["g8"]));
     }
-    (cases, vec![("1-4 failing evaluations (24 fault kinds under 0-3 nested contexts of 9 kinds; one history in five with errorInfo/errorCode turned into arrays meanwhile) followed by 4 probes".to_string(), n, false)])
+    (cases, vec![("1-4 failing evaluations (28 fault kinds under 0-3 nested contexts of 9 kinds; one history in five with errorInfo/errorCode turned into arrays meanwhile) followed by 4 probes".to_string(), n, false)])
 }
 
 pub fn run(case: &Term) -> Term {
